@@ -36,12 +36,8 @@ def all_args_joined(f, rule_ctx, ctx: Ctx, rule: str, head: str):
         return
     flat = av.flatten(v).replace(av.HO, "{").replace(av.HC, "}")
     ep = f.params[-1]
-    want = head + "({join(', ', <self._print($1) for $1 in " + ep + ".args>)})"
-    want2 = head + "(⟦for $1 in " + ep + ".args: {self._print($1)}⟧)"
-    ok = flat in (want, want2) or re.fullmatch(re.escape(head) + r"\(⟦for \$1 in " + re.escape(ep) + r"\.args: \{self\._print\(\$1\)\}⟧\)", flat.replace("}, {", "}, {")) is not None
-    if not ok:
-        # the join renders as a loop group with the separator between the items
-        ok = re.sub(r"\s+", " ", flat) == f"{head}(⟦for $1 in {ep}.args: " + "{self._print($1)}⟧)"
+    want = head + "(⟦for $1 in " + ep + ".args|sep=', ': {self._print($1)}⟧)"
+    ok = flat == want
     ctx.check(ok, rule, f.key("all-arguments"), f"{head}(<all arguments>)", f"{f.qualname} returns `{flat[:120]}`, not `{head}(` + every printed argument of the connective, comma separated + `)`: operands are lost or the head is wrong when the file is saved", f.where())
 
 
